@@ -4,6 +4,7 @@ pub mod c02;
 pub mod c03;
 pub mod c04;
 pub mod c05;
+#[cfg(not(feature = "xen"))]
 pub mod c08;
 pub mod c09;
 pub mod c14;
@@ -15,6 +16,7 @@ pub fn dispatch(prop: &str, tier: Tier, replay: Option<String>) -> i32 {
         "C04" => c04::run(tier, replay),
         "C05" => c05::run("C05", tier, replay),
         "C16" => c05::run("C16", tier, replay),
+        #[cfg(not(feature = "xen"))]
         "C08" => c08::run(tier, replay),
         "C09" => c09::run(tier, replay),
         "C14" => c14::run(tier, replay),
